@@ -11,6 +11,7 @@ import SpecVerif.Model.Estimators
 import SpecVerif.Model.Eigen
 import SpecVerif.Model.Mtm
 import SpecVerif.Model.ClassGlue
+import SpecVerif.Model.Object
 import SpecVerif.Model.Window
 /-
   Line-protocol driver for the executable model (no Mathlib anywhere below this file, so it links as a
@@ -443,6 +444,56 @@ def handleReal (cmd : String) (hd : List String) (vs : List (List CFloat)) : Opt
   | "is2rc" => out ((vs.getD 0 []).map (fun z => is2rc z.re))
   | _ => none
 
+/-! ### object state machine (no scalars involved) -/
+
+def parseObjOp (t : String) : Option ObjOp :=
+  let n := fun (s : String) => s.toNat?
+  match t.splitOn ":" with
+  | ["data", i, c, k] => do pure (.setData (← n i) ((← n c) = 1) (← n k))
+  | ["nfft", k] => (n k).map .setNfft
+  | ["nfftnone"] => some .setNfftNone
+  | ["nfftpow2"] => some .setNfftPow2
+  | ["samp", k] => (n k).map .setSamp
+  | ["detrend", k] => (n k).map .setDetrend
+  | ["scale", k] => (n k).map (fun v => .setScale (v = 1))
+  | ["window", k] => (n k).map .setWindow
+  | ["lag", k] => (n k).map .setLag
+  | ["ar", k] => (n k).map .setArOrder
+  | ["ma", k] => (n k).map .setMaOrder
+  | ["sides", "onesided"] => some (.setSides .one)
+  | ["sides", "twosided"] => some (.setSides .two)
+  | ["sides", "centerdc"] => some (.setSides .center)
+  | ["sides", "default"] => some (.setSides .dflt)
+  | ["call"] => some .call
+  | ["read"] => some .read
+  | _ => none
+
+def sideCode : Side → Nat
+  | .one => 1 | .two => 2 | .center => 3
+
+def b2n (b : Bool) : Nat := if b then 1 else 0
+
+def obsLine (s : ObjState) (err : Bool) : String :=
+  let c := match s.cache with
+    | some (a, sd) => [1, a.dataId, b2n a.cplx, a.N, a.nfft, a.samp, a.detrend, b2n a.scale, a.window, a.lag, a.arOrder,
+                       a.maOrder, sideCode sd]
+    | none => [0, 0, 0, 0, 0, 0, 0, 0, 0, 0, 0, 0, 0]
+  " ".intercalate (([b2n err, sideCode s.sides, s.a.nfft, s.rangeN, s.rangeSamp, freqLen s] ++ c).map toString)
+
+/-- `objhist parametric cplx N nfft samp detrend scale window lag ar ma dataId op op …`
+    reply: `ok ; <obs after op 1> ; <obs after op 2> …` (plain naturals) -/
+def runObjHist (hd : List String) : String :=
+  let g := fun i => natAt hd i
+  let a : Attrs := { dataId := g 11, cplx := g 1 = 1, N := g 2, nfft := g 3, samp := g 4, detrend := g 5, scale := g 6 = 1,
+                     window := g 7, lag := g 8, arOrder := g 9, maOrder := g 10 }
+  match (hd.drop 12).mapM parseObjOp with
+  | none => "err parse"
+  | some ops =>
+    let (_, outs) := ops.foldl (fun (acc : ObjState × List String) op =>
+      let r := objStep acc.1 op
+      (r.1, acc.2 ++ [obsLine r.1 r.2])) (objInit a (g 0 = 1), [])
+    "ok ; " ++ " ; ".intercalate outs
+
 def runAt (K : Type) [Add K] [Sub K] [Mul K] [Div K] [Neg K] [OfNat K 0] [OfNat K 1] [NatCast K]
     [Conj K] [ReOrd K] [Twid K] [LogRe K] [IsZero K] [Codec K] (cmd : String) (hd : List String)
     (secs : List (List String)) : String :=
@@ -457,7 +508,8 @@ def processLine (line : String) : String :=
   let toks := (line.splitOn " ").filter (· ≠ "")
   match splitSections toks with
   | (cmd :: mode :: hd) :: secs =>
-      if mode = "F" then
+      if cmd = "objhist" then runObjHist hd
+      else if mode = "F" then
         match secs.mapM (parseVec (K := CFloat)) with
         | none => "err parse"
         | some vs =>
